@@ -144,15 +144,36 @@ func exec(t *testing.T, s Script) *vstat.Violation {
 					return // listener closed: refused
 				}
 				defer raw.Close()
-				c, err := rig.Handshake(raw, rig.ClientOpts{StdALPN: []string{"http/1.1"}})
+				alpn := []string{"http/1.1", "h2", ""}[i%3]
+				var offer []string
+				if alpn != "" {
+					offer = []string{alpn}
+				}
+				c, err := rig.Handshake(raw, rig.ClientOpts{StdALPN: offer})
 				if err != nil {
 					return
 				}
-				h := rig.NewH1(c.Conn)
-				resp, err := h.Do([]byte(fmt.Sprintf("GET /post/%d HTTP/1.1\r\nHost: x\r\n\r\n", i)), "GET")
-				if err == nil {
+				status := 0
+				if c.Proto == "h2" {
+					peer := rig.NewH2Peer(c.Conn)
+					peer.Start()
+					peer.Fr.WriteSettings()
+					if peer.SendH2(1, rig.ReqSpec{Method: "GET", Path: fmt.Sprintf("/post/%d", i), Authority: "x"}, nil) == nil {
+						stop := make(chan struct{})
+						go func() { time.Sleep(20 * time.Second); close(stop) }()
+						if ex := peer.AwaitResponse(1, stop); ex.Err == "" {
+							status = ex.Status
+						}
+					}
+				} else {
+					h := rig.NewH1(c.Conn)
+					if resp, err := h.Do([]byte(fmt.Sprintf("GET /post/%d HTTP/1.1\r\nHost: x\r\n\r\n", i)), "GET"); err == nil {
+						status = resp.Status
+					}
+				}
+				if status != 0 {
 					pmu.Lock()
-					postServed = append(postServed, fmt.Sprintf("attempt %d at +%v got status %d", i, d, resp.Status))
+					postServed = append(postServed, fmt.Sprintf("%s attempt %d at +%v got status %d", alpn, i, d, status))
 					pmu.Unlock()
 				}
 			}(i, time.Duration(ms)*time.Millisecond+time.Nanosecond)
